@@ -81,7 +81,7 @@ func C07(c *ev.Ctx) {
 			normal = append(normal, it)
 		}
 	}
-	npk := c.Pick(24, 300)
+	npk := c.Pick(24, 1500)
 	if need := len(normal)/6 + 2; npk < need {
 		npk = need
 	}
